@@ -237,6 +237,8 @@ var topForms = []struct{ name, code string }{
 	{"import-group", "import (\n\t\"strings\"\n)\nprint(strings.HasPrefix(\"abc\", \"a\"))"},
 	{"import-group-alias", "import (\n\tst \"strings\"\n\t\"os\"\n)\nprint(st.Index(\"abc\", \"c\"), os.Shell())"},
 	{"import-after-blank", "\n\nimport \"strings\"\n\nprint(strings.Join([]string{\"a\", \"b\"}, \"-\"))"},
+	{"import-only", "import \"strings\""},
+	{"import-group-only", "import (\n\t\"strings\"\n)"},
 	{"empty-program", ""},
 	{"only-comment", "// nothing here\n"},
 	{"no-final-newline", "print(1)"},
